@@ -13,9 +13,12 @@ import (
 	"context"
 	"encoding/json"
 	"fmt"
+	"net/http"
+	"net/http/httptest"
 	"os"
 	"path/filepath"
 	"sort"
+	"strings"
 	"sync"
 	"testing"
 
@@ -42,13 +45,13 @@ func New() *C16d { return &C16d{rw: sim.NewRaceWatcher()} }
 func (*C16d) ID() string       { return "C16" }
 func (*C16d) CrashProne() bool { return true }
 func (*C16d) Rule() string {
-	return "(d) free-running stress under the race detector: 2-8 real goroutines released together, each performing 1-6 operations on one shared RequestCache (Get on 1-2 keys with instant fetch functions, GetMap followed by iteration of the result, SetMap) and on one shared CombinedNativeClient (lazy per-ecosystem client initialisation via AddRegistries / an unsupported system) and on one shared MavenRegistryAPIClient with 0-6 added registries (GetVersions / GetProject with a cancelled context, WithoutRegistries, GobEncode of the cache: the client guided remediation's Maven resolver shares between concurrent patch attempts); schedule NOT simulator-controlled (stated); non-trivial = at least two goroutines touch the same object; a runtime fatal error (concurrent map access) that kills the worker is reported as violation class crash"
+	return "(d) free-running stress under the race detector: 2-8 real goroutines released together, each performing 1-6 operations on one shared RequestCache (Get on 1-2 keys with instant fetch functions, GetMap followed by iteration of the result, SetMap) and on one shared CombinedNativeClient (lazy per-ecosystem client initialisation via AddRegistries / an unsupported system) and on one shared MavenRegistryAPIClient with 0-6 added registries (GetVersions / GetProject with a cancelled context, WithoutRegistries, GobEncode of the cache; and on one shared NPMRegistryClient and one shared MavenRegistryClient of clients/resolution against a static registry universe served over loopback HTTP - every Requirements answer must equal the answer a client that is alone gets (package with optional dependencies; artifacts whose parent poms declare different repositories): the client guided remediation's Maven resolver shares between concurrent patch attempts); schedule NOT simulator-controlled (stated); non-trivial = at least two goroutines touch the same object; a runtime fatal error (concurrent map access) that kills the worker is reported as violation class crash"
 }
 
 func (*C16d) Gen(rt *rapid.T, tier string) any {
 	sc := &Scenario{}
 	n := rapid.IntRange(2, 8).Draw(rt, "goroutines")
-	all := []string{"get:k0", "get:k0", "get:k1", "getmap", "getmap", "setmap", "sys:Maven", "sys:NPM", "sys:PyPI", "sys:Other", "mvn:versions", "mvn:versions", "mvn:project", "mvn:without", "mvn:gob"}
+	all := []string{"get:k0", "get:k0", "get:k1", "getmap", "getmap", "setmap", "sys:Maven", "sys:NPM", "sys:PyPI", "sys:Other", "mvn:versions", "mvn:versions", "mvn:project", "mvn:without", "mvn:gob", "reg:npm", "reg:npm", "reg:mvn-a", "reg:mvn-b", "reg:mvn-b"}
 	sc.MavenRegs = rapid.IntRange(0, 6).Draw(rt, "maven_regs")
 	for i := 0; i < n; i++ {
 		sc.Ops = append(sc.Ops, rapid.SliceOfN(rapid.SampledFrom(all), 1, 6).Draw(rt, fmt.Sprintf("g%d", i)))
@@ -96,6 +99,28 @@ func (c *C16d) Run(t *testing.T, scn any) *sim.Outcome {
 			return out
 		}
 	}
+	usesReg := false
+	for _, ops := range sc.Ops {
+		for _, op := range ops {
+			if strings.HasPrefix(op, "reg:") {
+				usesReg = true
+			}
+		}
+	}
+	var npmCl *resolution.NPMRegistryClient
+	var mvnCl *resolution.MavenRegistryClient
+	if usesReg {
+		regOnce.Do(func() { regSetup(filepath.Dir(projectDir)) })
+		if reg.err == nil {
+			npmCl, mvnCl, reg.err = regClients()
+		}
+		if reg.err != nil {
+			out.Violate("harness", "harness:registry-universe", "registry universe: %v", reg.err)
+			return out
+		}
+	}
+	var regMu sync.Mutex
+	var regDiffs []string
 	cancelled, cancel := context.WithCancel(context.Background())
 	cancel()
 	start := make(chan struct{})
@@ -110,6 +135,9 @@ func (c *C16d) Run(t *testing.T, scn any) *sim.Outcome {
 			}
 			if len(op) > 4 && op[:4] == "mvn:" {
 				obj = "maven-registry-client"
+			}
+			if len(op) > 4 && op[:4] == "reg:" {
+				obj = "resolution-" + op[4:7] + "-client"
 			}
 			if !seen[obj] {
 				seen[obj] = true
@@ -134,6 +162,12 @@ func (c *C16d) Run(t *testing.T, scn any) *sim.Outcome {
 				case len(op) > 4 && op[:4] == "get:":
 					k := op[4:]
 					cache.Get(k, func() (string, error) { return fmt.Sprintf("%s-by-g%d", k, gi), nil })
+				case strings.HasPrefix(op, "reg:"):
+					if got := regAsk(npmCl, mvnCl, op); got != reg.want[op] {
+						regMu.Lock()
+						regDiffs = append(regDiffs, fmt.Sprintf("%s asked by goroutine %d (its operations: %v): got %q, a client that is alone gets %q", op, gi, ops, got, reg.want[op]))
+						regMu.Unlock()
+					}
 				case op == "mvn:versions":
 					mvn.GetVersions(cancelled, "org.example", "thing")
 				case op == "mvn:without":
@@ -172,6 +206,12 @@ func (c *C16d) Run(t *testing.T, scn any) *sim.Outcome {
 		out.Violate("data-race", "data-race:"+r.Key, "race detector report under free-running goroutines %v:\n%s", sc.Ops, r.Text)
 		out.NoShrink = true
 	}
+	sort.Strings(regDiffs)
+	for _, d := range regDiffs {
+		out.Violate("schedule-dependent", "schedule-dependent-requirements:"+strings.SplitN(d, " ", 2)[0], "an answer of a shared resolution client depends on what else is asked of it: %s; all goroutines: %v", d, sc.Ops)
+		out.NoShrink = true
+		break
+	}
 	var ks []string
 	for k, v := range touched {
 		if v >= 2 {
@@ -183,4 +223,124 @@ func (c *C16d) Run(t *testing.T, scn any) *sim.Outcome {
 	out.Sample = map[string]any{"goroutines": sc.Ops}
 	out.HistoryFP = sim.FP(sc) // no history: the schedule is not controlled in this world
 	return out
+}
+
+// ---- registry universe served over loopback HTTP (one per worker process; static content) ----
+//
+//	npm:    pkg@1.0.0 with 40 dependencies that are also optionalDependencies, plus one plain one
+//	maven:  central: a:1.0 (parent pa:1.0), pa:1.0 (declares <repository> "mirror"),
+//	                 b:1.0 (parent pb:1.0), pb:1.0 (depends on x:1.0)
+//	        mirror:  pb:1.0 (another build: depends on x:2.0)
+//
+// What a caller gets from the resolution clients must not depend on what other callers ask for
+// before or at the same time: the reference answers are taken once from fresh clients used alone.
+type staticServer map[string]string
+
+func (m staticServer) ServeHTTP(w http.ResponseWriter, r *http.Request) {
+	body, ok := m[strings.TrimPrefix(r.URL.EscapedPath(), "/")]
+	if !ok {
+		w.WriteHeader(http.StatusNotFound)
+		return
+	}
+	w.Write([]byte(body))
+}
+
+type regUniverse struct {
+	central, mirror, npm *httptest.Server
+	npmDir               string
+	want                 map[string]string // op -> answer of a client that is alone
+	err                  error
+}
+
+var (
+	regOnce sync.Once
+	reg     regUniverse
+)
+
+func npmVK() resolve.VersionKey {
+	return resolve.VersionKey{PackageKey: resolve.PackageKey{System: resolve.NPM, Name: "pkg"}, Version: "1.0.0", VersionType: resolve.Concrete}
+}
+func mvnVK(a string) resolve.VersionKey {
+	return resolve.VersionKey{PackageKey: resolve.PackageKey{System: resolve.Maven, Name: "org.ex:" + a}, Version: "1.0", VersionType: resolve.Concrete}
+}
+
+func reqString(rs []resolve.RequirementVersion, err error) string {
+	if err != nil {
+		return "error: " + err.Error()
+	}
+	var es []string
+	for _, r := range rs {
+		es = append(es, fmt.Sprintf("%s@%s[%s]", r.Name, r.Version, r.Type.String()))
+	}
+	sort.Strings(es) // the order of a regular and an optional requirement on one package is not defined
+	return strings.Join(es, " ")
+}
+
+func regClients() (*resolution.NPMRegistryClient, *resolution.MavenRegistryClient, error) {
+	n, err := resolution.NewNPMRegistryClient(reg.npmDir)
+	if err != nil {
+		return nil, nil, err
+	}
+	m, err := resolution.NewMavenRegistryClient(reg.central.URL)
+	return n, m, err
+}
+
+func regAsk(n *resolution.NPMRegistryClient, m *resolution.MavenRegistryClient, op string) string {
+	switch op {
+	case "reg:npm":
+		return reqString(n.Requirements(context.Background(), npmVK()))
+	case "reg:mvn-a":
+		return reqString(m.Requirements(context.Background(), mvnVK("a")))
+	default:
+		return reqString(m.Requirements(context.Background(), mvnVK("b")))
+	}
+}
+
+func regSetup(scratch string) {
+	pom := func(artifact, extra string) string {
+		return fmt.Sprintf("<project>\n  <groupId>org.ex</groupId>\n  <artifactId>%s</artifactId>\n  <version>1.0</version>\n  %s\n</project>", artifact, extra)
+	}
+	parent := func(a string) string {
+		return fmt.Sprintf("<parent><groupId>org.ex</groupId><artifactId>%s</artifactId><version>1.0</version></parent>", a)
+	}
+	depOnX := func(v string) string {
+		return fmt.Sprintf("<packaging>pom</packaging>\n  <dependencies><dependency><groupId>org.ex</groupId><artifactId>x</artifactId><version>%s</version></dependency></dependencies>", v)
+	}
+	mirror := staticServer{"org/ex/pb/1.0/pb-1.0.pom": pom("pb", depOnX("2.0"))}
+	reg.mirror = httptest.NewServer(mirror)
+	central := staticServer{
+		"org/ex/a/1.0/a-1.0.pom":   pom("a", parent("pa")),
+		"org/ex/pa/1.0/pa-1.0.pom": pom("pa", fmt.Sprintf("<packaging>pom</packaging>\n  <repositories><repository><id>mirror</id><url>%s</url></repository></repositories>", reg.mirror.URL)),
+		"org/ex/b/1.0/b-1.0.pom":   pom("b", parent("pb")),
+		"org/ex/pb/1.0/pb-1.0.pom": pom("pb", depOnX("1.0")),
+	}
+	reg.central = httptest.NewServer(central)
+	var deps, opt []string
+	for i := 0; i < 40; i++ {
+		deps = append(deps, fmt.Sprintf("%q: \"^1.0.0\"", fmt.Sprintf("dep%02d", i)))
+		opt = append(opt, fmt.Sprintf("%q: \"^1.0.0\"", fmt.Sprintf("dep%02d", i)))
+	}
+	deps = append(deps, "\"plain\": \"^2.0.0\"")
+	reg.npm = httptest.NewServer(staticServer{"pkg": fmt.Sprintf("{\"name\":\"pkg\",\"dist-tags\":{\"latest\":\"1.0.0\"},\"versions\":{\"1.0.0\":{\"name\":\"pkg\",\"version\":\"1.0.0\",\"dependencies\":{%s},\"optionalDependencies\":{%s}}}}", strings.Join(deps, ","), strings.Join(opt, ","))})
+	reg.npmDir = filepath.Join(scratch, "stress-npm-project")
+	os.MkdirAll(reg.npmDir, 0o755)
+	blank := filepath.Join(reg.npmDir, "blank")
+	os.WriteFile(blank, nil, 0o644)
+	if err := os.WriteFile(filepath.Join(reg.npmDir, ".npmrc"), []byte("registry="+reg.npm.URL+"\nglobalconfig="+blank+"\nuserconfig="+blank+"\n"), 0o644); err != nil {
+		reg.err = err
+		return
+	}
+	reg.want = map[string]string{}
+	for _, op := range []string{"reg:npm", "reg:mvn-a", "reg:mvn-b"} {
+		n, m, err := regClients() // a client of its own for every reference answer
+		if err != nil {
+			reg.err = err
+			return
+		}
+		reg.want[op] = regAsk(n, m, op)
+		if strings.HasPrefix(reg.want[op], "error") {
+			reg.err = fmt.Errorf("reference answer for %s: %q", op, reg.want[op])
+			return
+		}
+	}
 }
